@@ -30,6 +30,7 @@ ATTACH = {
     'helpers_probes.rs': 'mla/src/helpers.rs',
     'capi_probes.rs': 'bindings/C/src/lib.rs',
     'mlar_probes.rs': 'mlar/src/main.rs',
+    'parser_probes.rs': 'curve25519-parser/src/lib.rs',
 }
 # cargo package that holds each attach file (default: mla)
 PACKAGE = {'bindings/C/src/lib.rs': 'mla-bindings-c'}
@@ -98,7 +99,7 @@ def run_probe(tests, keep=False, _only=None):
         failed = []
         build_err = None
         for t in tests:
-            pkg = 'mla-bindings-c' if 'capi_probes' in t else 'mlar' if 'mlar_probes' in t else 'mla'
+            pkg = 'mla-bindings-c' if 'capi_probes' in t else 'mlar' if 'mlar_probes' in t else 'curve25519-parser' if 'parser_probes' in t else 'mla'
             target = ['--bin', 'mlar'] if pkg == 'mlar' else ['--lib']
             cmd = ['cargo', 'test', '--offline', '-p', pkg] + target + ['--', '--exact', t, '--test-threads', '1']
             p = subprocess.run(cmd, cwd=SCRATCH, env=env, capture_output=True, text=True, timeout=3000)
